@@ -67,6 +67,20 @@ Theorem C14_same_function_sound : ∀ Cf Cl, same_function Cf Cl = true → same
 Proof. exact same_function_sound. Qed.
 Print Assumptions C14_same_function_sound.
 
+(* the structural clause implies the functional one, for ALL sizes (also cyclic circuits and more than 8 free nodes, where the
+   exhaustive oracle is silent): if both results have the tie shape (at most one node per constant type, canonical names unused:
+   tie_shapeb decides it) and are identical up to the constant nodes' names, every consistent valuation of the fast reader's circuit
+   is matched by one of the full reader's circuit that agrees on every net of the netlist *)
+Theorem C14_untie_same_function : ∀ cf cl f0 f1 fx l0 l1 lx,
+  tie_shape cf f0 f1 fx → tie_shape cl l0 l1 lx → untie_g cf = untie_g cl →
+  ∀ vf, consistent cf vf → ∃ vl, consistent cl vl ∧
+    ∀ n, n ∉ [f0; f1; fx; "1'b0"; "1'b1"; "1'bx"] → n ∉ [l0; l1; lx; "1'b0"; "1'b1"; "1'bx"] → vl n = vf n.
+Proof. exact untie_same_function. Qed.
+Print Assumptions C14_untie_same_function.
+Theorem C14_tie_shapeb_spec : ∀ c, tie_shapeb c = true → ∃ t0 t1 tx, tie_shape c t0 t1 tx.
+Proof. exact tie_shapeb_spec. Qed.
+Print Assumptions C14_tie_shapeb_spec.
+
 (* non-vacuity: a concrete AST inside the subset (keyword inside an identifier, nets called tie0 / tie_0, leading underscore,
    constants at a gate, a pin and an assign, equal operands of a parity gate, unconnected and omitted pins, use before
    definition) on which the agreement holds *)
@@ -84,6 +98,11 @@ Proof. split; [vm_compute; reflexivity|]. apply agreementb_spec. vm_compute. ref
 Example C14_same_function_nonvacuous :
   match fast_sem ex_ast ex_bbs, full_sem ex_ast ex_bbs with
   | Ok Cf, Ok Cl => same_function Cf Cl && same_function_decided Cf Cl && negb (bool_decide (c_g Cf = c_g Cl))
+  | _, _ => false end = true.
+Proof. vm_compute. reflexivity. Qed.
+Example C14_tie_shape_inhabited :
+  match fast_sem ex_ast ex_bbs, full_sem ex_ast ex_bbs with
+  | Ok Cf, Ok Cl => tie_shapeb (c_g Cf) && tie_shapeb (c_g Cl) && bool_decide (untie_g (c_g Cf) = untie_g (c_g Cl))
   | _, _ => false end = true.
 Proof. vm_compute. reflexivity. Qed.
 Example C14_parity_nonvacuous : is_parity Xnor = true ∧ cancel_pairs ["a"; "b"; "a"; "c"; "b"; "b"] = ["c"; "b"].
